@@ -1,6 +1,7 @@
 package main
 
 import (
+	"os"
 	"go/constant"
 	"fmt"
 	"go/types"
@@ -271,6 +272,14 @@ func (s *State) bindFreshResult(call *ssa.Call, prefix string) {
 }
 
 func (s *State) unknownCall(call *ssa.Call, name string, sig *types.Signature) {
+	if os.Getenv("VCGO_TRACE") != "" {
+		fmt.Fprintf(os.Stderr, "unknownCall %s in %s (depth %d)\n", name, s.Frame.Fn.String(), s.Frame.Depth)
+		if sp, ok := s.C.SS.Funcs[name]; ok {
+			fmt.Fprintf(os.Stderr, "  spec: hasbody=%v trusted=%v inline=%v\n", sp.HasBody, sp.Trusted, sp.Inline)
+		} else {
+			fmt.Fprintf(os.Stderr, "  no spec under that key\n")
+		}
+	}
 	s.abstracted("unmodelled call " + name)
 	s.havocAllHeap("call " + name)
 	s.bindFreshResult(call, "unk")
@@ -457,7 +466,19 @@ func (s *State) contractCall(call *ssa.Call, sp *FuncSpec, fn *ssa.Function, sig
 		t, err := pre.evalBool(r.E)
 		if err != nil {
 			if strings.Contains(err.Error(), "unknown identifier") && c.mentionsForeignGhost(r.Src) {
-				// initial condition on the callee's own ghost variables: not a demand on this caller
+				// the clause speaks about the callee's own ghost variables (their initial values: not a demand on this
+				// caller); its other conjuncts are demands like any other
+				for k, cj := range splitConj(r.E) {
+					tc, err := pre.evalBool(cj)
+					if err != nil {
+						if strings.Contains(err.Error(), "unknown identifier") {
+							continue
+						}
+						panic(evalErr(fmt.Sprintf("%s:%d: requires of %s: %v", r.File, r.Line, name, err)))
+					}
+					s.obligeExpr(fmt.Sprintf("pre#%d.%d@%s#%d", i+1, k+1, short, occ), r.Src, c.posOf(call.Pos()), pre, cj, fmt.Sprintf("%s:%d: requires of %s", r.File, r.Line, name))
+					s.assert(tc)
+				}
 				continue
 			}
 			panic(evalErr(fmt.Sprintf("%s:%d: requires of %s: %v", r.File, r.Line, name, err)))
@@ -512,8 +533,16 @@ func (s *State) contractCall(call *ssa.Call, sp *FuncSpec, fn *ssa.Function, sig
 		if err != nil {
 			if strings.Contains(err.Error(), "unknown identifier") && c.mentionsForeignGhost(e.Src) {
 				// the clause talks about a ghost variable that the function under verification does not declare:
-				// it is irrelevant here (assuming less is sound)
-				c.noteOnce(fmt.Sprintf("ensures of %s not assumed (%v): %s", name, err, e.Src))
+				// those conjuncts are irrelevant here (assuming less is sound); the others are assumed
+				cjs := splitConj(e.E)
+				if len(cjs) > 1 {
+					for _, cj := range cjs {
+						if tc, err := post.evalBool(cj); err == nil {
+							s.assert(tc)
+						}
+					}
+				}
+				c.noteOnce(fmt.Sprintf("ensures of %s not assumed in full (%v): %s", name, err, e.Src))
 				continue
 			}
 			panic(evalErr(fmt.Sprintf("%s:%d: ensures of %s: %v", e.File, e.Line, name, err)))
@@ -1267,4 +1296,12 @@ func (s *State) fmtErrorf(call *ssa.Call, cc *ssa.CallCommon, args []Value) bool
 	s.assert(fmt.Sprintf("(forall ((t!w Iface)) (! (= (err.wraps %s t!w) (or %s)) :pattern ((err.wraps %s t!w))))", r, strings.Join(parts, " "), r))
 	s.Frame.Vals[call] = r
 	return true
+}
+
+// splitConj: the top-level conjuncts of a specification expression.
+func splitConj(e Expr) []Expr {
+	if b, ok := e.(*EBin); ok && b.Op == "&&" {
+		return append(splitConj(b.X), splitConj(b.Y)...)
+	}
+	return []Expr{e}
 }
